@@ -483,6 +483,16 @@ def lang_lines(ctx, sources, op="eval", ast_sources=None):
     return lines
 
 
+def vmrun_lines(ctx, sources):
+    """The VM model runs the REAL compiler's bytecode: harness op `compile` dumps it, the driver op `vmrun` executes
+    the dump on the Lean VM model, the harness op `vmrun` executes the same source on the real VM."""
+    if not ctx.harness:
+        return [f"vmrun {s.encode('utf-8').hex()} @@ -" for s in sources]
+    clines = ["compile " + s.encode("utf-8").hex() for s in sources]
+    outs = run_parallel(ctx.harness, clines, timeout=120, label="compile")
+    return [f"vmrun {s.encode('utf-8').hex()} @@ {o}" for s, o in zip(sources, outs)]
+
+
 TRUSTED_BASE = [
     "Lean 4.33.0 kernel (lake build; leanchecker re-check in the thorough tier)",
     "axioms: propext, Classical.choice, Quot.sound only (audited with #print axioms per obligation)",
